@@ -95,6 +95,8 @@ def enc_value(valset, v):
         return _mkfunc(v)
     if valset == 'mainfunc':      # a function defined in THIS process's __main__ (as an interactive user's would be)
         return _mkmainfunc(v)
+    if valset == 'maininst':      # an instance of a class defined in THIS process's __main__
+        return _mkmaininst(v)
     raise ValueError(valset)
 
 
@@ -121,11 +123,27 @@ def _mkmainfunc(v):
     return getattr(main, name)
 
 
+def _mkmaininst(v):
+    """an instance of a class that exists only in THIS process's __main__ (under a name no other process has)"""
+    main = sys.modules['__main__']
+    name = 'MainCls_%d' % os.getpid()
+    if not hasattr(main, name):
+        ns = {'__name__': '__main__'}
+        exec('class %s(object):\n    def __init__(self, v):\n        self.v = v\n' % name, ns)
+        ns[name].__qualname__ = name
+        setattr(main, name, ns[name])
+    return getattr(main, name)(v)
+
+
 def dec_value(valset, x, kid=0):
     """real value -> id; negative = not a value of this set.  kid: the id of the key it was stored under, when known"""
     if isinstance(x, Unencodable):
         return BAD
     try:
+        if valset == 'maininst':
+            cand = getattr(x, 'v', None)
+            ok = type(x).__name__.startswith('MainCls_') and isinstance(cand, int) and not isinstance(cand, bool) and cand > 0
+            return cand if ok else -8
         if valset == 'nonev':
             if x is None:
                 return 10 * kid + 2 if kid > 0 else -8
@@ -174,7 +192,7 @@ def valsets_for(backend):
     if base in ('dict', 'null'):
         return ['int', 'rich', 'func', 'nonev', 'uni']
     if base in ('file', 'dir', 'dir-fast', 'dir-compressed'):
-        return ['int', 'rich', 'func', 'mainfunc', 'nonev', 'uni'] if base in ('file', 'dir') else ['int', 'rich', 'nonev', 'uni']
+        return ['int', 'rich', 'func', 'mainfunc', 'maininst', 'nonev', 'uni'] if base in ('file', 'dir') else ['int', 'rich', 'nonev', 'uni']
     if base in ('file-json', 'dir-json'):
         return ['int', 'json', 'nonev', 'uni']
     if base in ('file-py', 'dir-py'):
